@@ -20,6 +20,7 @@ import json, os, re, sys
 import translate_ctl
 import translate_export
 import translate_serde
+import translate_nom
 REPO = os.environ.get("NF_REPO", "/repo")
 SRC = os.path.join(REPO, "src")
 
@@ -31,6 +32,7 @@ class Unrecognised(Exception):
 translate_ctl.Unrecognised = Unrecognised
 translate_export.Unrecognised = Unrecognised
 translate_serde.Unrecognised = Unrecognised
+translate_nom.Unrecognised = Unrecognised
 
 
 def read(rel):
@@ -722,6 +724,8 @@ def gen():
     # ---- the V9 / IPFIX exporters, statement by statement (translate_export.py)
     attempt("v9ExportProg", lambda: translate_export.translate(v9, "V9"))
     attempt("ipExportProg", lambda: translate_export.translate(ipf, "IPFix"))
+    # ---- derive(Nom) template-record structs as field programs (translate_nom.py)
+    attempt("nomStructs", lambda: translate_nom.translate(v9, ipf))
     # ---- JSON member schema of the derive(Serialize) types (translate_serde.py)
     attempt("serdeSchema", lambda: translate_serde.translate({"lib": lib, "v9": v9, "ipf": ipf, "dn": dn}))
 
@@ -1003,6 +1007,12 @@ def main():
     if old_ser != text_ser:
         with open(dest_ser, "w") as f:
             f.write(text_ser)
+    dest_nom = os.path.join(os.path.dirname(os.path.abspath(dest)), "GeneratedNom.lean")
+    text_nom = translate_nom.emit_lean(norm["nomStructs"])
+    old_nom = open(dest_nom).read() if os.path.exists(dest_nom) else None
+    if old_nom != text_nom:
+        with open(dest_nom, "w") as f:
+            f.write(text_nom)
     if os.environ.get("NF_WRITE_SNAPSHOT") == "1" and not problems:
         json.dump(norm, open(snap, "w"), indent=0, sort_keys=True)
     try:
